@@ -168,6 +168,7 @@ fn inner(world_no: u64, t: &mut Tape, rep: &mut WorldReport) {
     } else {
         let profile = *t.pick(&[Profile::Rich, Profile::Fee, Profile::Selection, Profile::Boundary]);
         let rich = t.chance(1, 3);
+        let datum_bias = t.chance(1, 3);
         let p = gen_program(
             t,
             &GenCfg {
@@ -177,6 +178,7 @@ fn inner(world_no: u64, t: &mut Tape, rep: &mut WorldReport) {
                 force_min_utxo: None,
                 rich_directives: rich,
                 optional_bias: false,
+            datum_bias,
             },
         );
         (format!("generated-{world_no}"), p.source(), Some(p))
@@ -229,17 +231,19 @@ fn inner(world_no: u64, t: &mut Tape, rep: &mut WorldReport) {
             if t.chance(1, 3) {
                 v.insert(Some((vec![0x11; 28], b"TKA".to_vec())), 1 + t.draw(5) as i128);
             }
+            // a UTxO need not carry a datum: what the template reads from it is then nothing
+            let no_datum = t.chance(1, 3);
             let u = SimUtxo {
                 address: addr_for(0, false, false),
                 value: v,
-                datum: Some(tir::Expression::Struct(tir::StructExpr {
+                datum: if no_datum { None } else if t.chance(1, 4) { Some(tir::Expression::Number(t.draw(50) as i128)) } else { Some(tir::Expression::Struct(tir::StructExpr {
                     constructor: 0,
                     fields: vec![
                         tir::Expression::Number(t.draw(50) as i128),
                         tir::Expression::Bytes(vec![0xAB, 0xCD]),
                         tir::Expression::List(vec![tir::Expression::Number(10), tir::Expression::Number(20), tir::Expression::Number(30)]),
                     ],
-                })),
+                })) },
             };
             set.insert(u.to_utxo(&(vec![0x40 + qi as u8; 32], j as u32)));
         }
